@@ -441,6 +441,8 @@ class Gen:
         ty = self.r.choice(["int", "float", "float", "complex"])
         if ty == "complex" and not self.allow_complex:
             ty = "float"
+        if with_params and ty == "int" and getattr(self, "float_param_values", True):
+            ty = "float"       # instantiation values are generic reals: keep parameters out of int arrays
         nm = name or self.fresh(self.r.choice(["A", "U", "M", "arr", "B1"]))
         rows = rows or self.r.choice([1, 1, 2, 2, 3])
         cols = cols or self.r.choice([1, 2, 2, 3, 4])
